@@ -284,6 +284,7 @@ NUMOP = {"==": 0, "<": 1, ">": 2, "<=": 3, ">=": 4, "!=": 5}
 STROP = dict(NUMOP)
 STROP.update({"startswith": 6, "endswith": 7, "contains": 8, "isstartof": 9, "isendof": 10, "issubstringof": 11})
 STROP_RX = {"matches": 24, "matchesregex": 25}
+DEFAULT_RECT = "0000000000000000000080bf000080bf"     # Rect(): the mask member of a filter nobody called SetMask() on
 CASTS = {"c": "(int8)", "h": "(int16)", "i": "(int32)", "l": "(int64)", "b": "(bool)", "f": "(float)", "d": "(double)", "s": "(string)", "P": "(point)", "R": "(rect)"}
 
 
@@ -401,7 +402,7 @@ def gen_pred(rng, feat, regex_ok):
         spec = "%s:%d" % (name, idx)
     if r < 0.2:      # exists
         cast_t = rng.choice([None, None, "i", "s", "f", "b", "l"])
-        txt = "exists" + sp(rng) + (CASTS[cast_t] if cast_t else "") + ('"%s"' % name if quoted_name else spec)
+        txt = "exists" + rng.choice([" ", " ", "  "]) + (CASTS[cast_t] if cast_t else "") + ('"%s"' % name if quoted_name else spec)
         return txt, ["fe:%s:%d:%d" % (sx(name), idx, TC[cast_t] if cast_t else ANY)]
     t = rng.choice(["i", "i", "f", "d", "b", "s", "s", "c", "h", "l", "P", "R"])
     ltxt, need_cast, lhex = lit_for(rng, t)
@@ -423,7 +424,7 @@ def gen_pred(rng, feat, regex_ok):
         ops = ["fs:s:%s:%d:%d:%s:%s" % (sx(name), idx, opc, lhex, dhex)]
     else:
         op = rng.choice(list(NUMOP))
-        ops = ["fn:%s:%s:%d:%d:0:%s:%s:%s" % (t, sx(name), idx, NUMOP[op], lhex, "00" * WIDTH[t], dhex)]
+        ops = ["fn:%s:%s:%d:%d:0:%s:%s:%s" % (t, sx(name), idx, NUMOP[op], lhex, DEFAULT_RECT if t == "R" else "00" * WIDTH[t], dhex)]
     optxt = op
     if op == "==" and rng.random() < 0.3:
         optxt = rng.choice(["is", "equals", "="])
